@@ -3,6 +3,7 @@ package main
 import (
 	"fmt"
 	"math/rand"
+	"strings"
 	"time"
 
 	"verif/simnet"
@@ -138,7 +139,29 @@ func c01Case(c *Ctx) *Result {
 		}
 		plans[i] = p
 	}
+	// a receiving application that stops reading for minutes while the sender keeps the
+	// connection full (a paused download): nothing may be lost, however long the bytes wait
+	longPause := isVirtual && c.Idx%16 == 15 // minutes of pause: virtual time only
+	pauseDir := r.Intn(2)
+	pauseS := 0
+	if longPause {
+		nsess = 1
+		chunkC2S, chunkS2C = "all", "all"
+		p := plans[0]
+		plans = plans[:1]
+		p.W[pauseDir] = nil
+		for k := 0; k < 6000; k++ {
+			p.W[pauseDir] = append(p.W[pauseDir], 8)
+		}
+		p.W[1-pauseDir] = []int{10}
+		p.GapMs = [2][]int{}
+		p.R[pauseDir] = []int{65536}
+		pauseS = pick(r, 20, 45, 70, 130, 200, 400)
+		p.ReadPause[pauseDir] = &Pause{AfterBytes: 8, Dur: time.Duration(pauseS) * time.Second}
+		p.CloseBy = pauseDir // the writer of the bulk direction closes after everything was read
+	}
 	params := map[string]interface{}{
+		"long_pause": longPause, "pause_s": pauseS,
 		"nsess": nsess, "multiplex": mult, "chunk_c2s": chunkC2S, "chunk_s2c": chunkS2C,
 		"pat_c": patString(patC), "pat_s": patString(patS),
 	}
@@ -158,6 +181,11 @@ func c01Case(c *Ctx) *Result {
 	env.OnPair = func(p *simnet.StreamPair) {
 		p.SetChunker(simnet.C2S, chunkerFor(chunkC2S, c.Seed*7+int64(c.Idx)*3+int64(p.ID)))
 		p.SetChunker(simnet.S2C, chunkerFor(chunkS2C, c.Seed*11+int64(c.Idx)*5+int64(p.ID)))
+		if longPause {
+			// socket buffers of finite size: what the receiver's stack has not taken waits here
+			p.SetBuffer(simnet.C2S, 65536)
+			p.SetBuffer(simnet.S2C, 65536)
+		}
 	}
 	ui := r.Intn(len(env.Cfg.Users))
 	cm, err := env.NewClient(ui, "")
@@ -214,6 +242,11 @@ func c01Case(c *Ctx) *Result {
 	sig, detail := judgeStreams(rs, plans, true)
 	if sig == "" && timedOut {
 		sig, detail = "stalled", "transfer did not finish within 1200 virtual seconds"
+	}
+	if sig != "" && longPause && pauseS > 60 && !strings.HasPrefix(sig, "wrong-byte") && !strings.HasPrefix(sig, "read-more") {
+		// the connection was lost (not corrupted) while the receiving application paused for more than a minute
+		sig = "connection-lost|receiving-application-paused-longer-than-a-minute"
+		detail = fmt.Sprintf("receiver paused %d s with the sender keeping the connection full: %s", pauseS, detail)
 	}
 	if sig != "" {
 		res.Verdict, res.Sig, res.Detail = Violated, "C01|tcp|"+sig, detail
